@@ -12,6 +12,7 @@ import (
 	nodetypes "github.com/SaoNetwork/sao/x/node/types"
 	saotypes "github.com/SaoNetwork/sao/x/sao/types"
 	sdk "github.com/cosmos/cosmos-sdk/types"
+	govv1beta1 "github.com/cosmos/cosmos-sdk/x/gov/types/v1beta1"
 	"github.com/cosmos/cosmos-sdk/crypto/keys/secp256k1"
 )
 
@@ -350,6 +351,12 @@ func (s *Sim) afterMsg(a *Action, res *chain.TxResult) {
 			}
 			s.Dids = append(s.Dids, &DidRef{Kind: "sid", Acct: acct, Did: "did:sid:" + root, Kid: chain.SidKid(root, root, "signing"), Priv: priv, Root: root, Version: root, Ts: a.Ts})
 			a.Note = fmt.Sprintf("did#%d", len(s.Dids)-1)
+		}
+	case "gov_param":
+		var r govv1beta1.MsgSubmitProposalResponse
+		if err := r.Unmarshal(res.Data); err == nil {
+			a.Order = r.ProposalId
+			a.Note = fmt.Sprintf("proposal=%d %s=%s", r.ProposalId, a.Extra["key"], a.Extra["value"])
 		}
 	case "store":
 		var r saotypes.MsgStoreResponse
